@@ -210,17 +210,24 @@ class MidiFile_(Stream):
             for on, dt, k, v, ch in t["events"]:
                 acc += dt
                 tabs.append((on, acc, k, v))
-            exact = all(F(x[0]).denominator == 1 for x in exp_on + exp_off)
             got_on = sorted((a, k, v) for on, a, k, v in tabs if on)
             got_off = sorted((a, k, v) for on, a, k, v in tabs if not on)
-            if exact:
-                if got_on != sorted((int(a), k, v) for a, k, v in exp_on) or got_off != sorted((int(a), k, v) for a, k, v in exp_off):
-                    return {"sig": "midi-notes", "msg": f"track {gi}: note-ons {got_on[:6]} expected {sorted(exp_on)[:6]}"}
-            else:
-                if sorted((k, v) for a, k, v in got_on) != sorted((k, v) for a, k, v in exp_on) or len(got_off) != len(exp_off):
-                    return {"sig": "midi-notes", "msg": f"track {gi}: keys/velocities differ"}
-                if any(abs(a - b[0]) > len(tabs) + 1 for (a, _, _), b in zip(got_on, sorted(exp_on))):
-                    return {"sig": "midi-tick-drift", "msg": f"track {gi}"}
+            # every event on its own: an onset / end that is a whole number of ticks is written exactly there, whatever the other
+            # notes of the score are; any other position is off by less than one tick (no error adds up along the track)
+            for got, exp, what in ((got_on, sorted(exp_on), "note-ons"), (got_off, sorted(exp_off), "note-offs")):
+                if sorted((k, v) for a, k, v in got) != sorted((k, v) for a, k, v in exp):
+                    return {"sig": "midi-notes", "msg": f"track {gi}: {what} {got[:6]} expected {exp[:6]}"}
+                if all(F(x[0]).denominator == 1 for x in exp):
+                    if got != [(int(a), k, v) for a, k, v in exp]:
+                        return {"sig": "midi-notes", "msg": f"track {gi}: {what} {got[:6]} expected {exp[:6]}"}
+                else:
+                    # match by (key, velocity) in time order
+                    for key in {(k, v) for a, k, v in exp}:
+                        ga = [a for a, k, v in got if (k, v) == key]
+                        ea = sorted(a for a, k, v in exp if (k, v) == key)
+                        for g1, e1 in zip(ga, ea):
+                            if (F(e1).denominator == 1 and g1 != e1) or abs(F(g1) - F(e1)) >= 1:
+                                return {"sig": "midi-tick-drift", "msg": f"track {gi}: {what}: key {key[0]} expected at tick {e1}, written at {g1}"}
         return None
 
     _gm = None
